@@ -187,6 +187,7 @@ def fixed_cases():
     flat("Foo", [["e", {"k": "enumCls", "cls": "Color", "names": ["RED", "GREEN", "BLUE"]}]], [["e", {"l": [1]}]])
     flat("Foo", [["e", {"k": "enumCls", "cls": "Color", "names": ["RED", "GREEN", "BLUE"]}]], [["e", "PINK"]])
     flat("Foo", [["é", {"k": "integer"}]], [["é", "x"]])
+    flat("Foo", [["x\u0301", {"k": "integer"}]], [["x\u0301", "a"]])   # identifier with a combining mark
     flat("Foo", [["i", {"k": "integer", "min": [3, 1]}]], [["i", 0]])
     flat("Foo", [["ap", {"k": "seqPos", "items": [{"k": "integer"}, {"k": "string"}]}]], [["ap", {"l": [1]}]])
     flat("Foo", [["t", {"k": "tuplePos", "items": [{"k": "integer"}, {"k": "string"}]}]], [["t", {"t": [1]}]])
@@ -364,11 +365,30 @@ def run_impl(case):
     return res
 
 
+def all_texts(msg, depth=0):
+    """the message and every string reachable by decoding it as JSON (collect-all lists, nested)"""
+    out = [msg]
+    if depth < 4:
+        try:
+            j = json.loads(msg)
+        except Exception:
+            return out
+        if isinstance(j, (list, dict)):
+            for x in j:
+                if isinstance(x, str):
+                    out += all_texts(x, depth + 1)
+        elif isinstance(j, str):
+            out.append(j)
+    return out
+
+
 def line(case, impl):
     l = {"suite": "errors", "cls": impl.get("cls_actual", case["cls"]), "kw": impl.get("kw_actual", []),
          "ff": bool(case["ff"]), "mode": case["mode"], "re": case.get("re", [])}
     if impl.get("msg") is not None:
         l["msg"] = impl["msg"]
+        # oracle answers for `\w`: the non-ASCII characters of the message that str.isalnum() accepts
+        l["alnum"] = "".join(sorted({ch for t in all_texts(impl["msg"]) for ch in t if ord(ch) > 127 and ch.isalnum()}))
     return l
 
 
@@ -395,12 +415,6 @@ def info_eq(m, r):
             d = info_eq(a, b)
             if d:
                 return "nested: " + d
-        return None
-    if m.get("opaque"):
-        # `display_type_by_type.get(name, match)`: the real text is the repr of the match object
-        want = f"Expected <re.Match object; span=(0, {len(m['problem'])}), match="
-        if not str(r.get("problem", "")).startswith(want):
-            return f"problem: model expects {want!r}…, real {r.get('problem')!r}"
         return None
     if m.get("problem") != r.get("problem"):
         return f"problem: model {m.get('problem')!r} real {r.get('problem')!r}"
@@ -483,10 +497,6 @@ def classify_no_path(text, raised, mode, ff, invalid_kinds, supplied_kinds, inne
     if mode == "deser" and (raised == "IndexError" and "index out of range" in t) and \
             any(k in ("seqPos", "tuplePos", "tupleOf") for k in supplied_kinds):
         return "no-path:index-error:deser-positional"
-    if "not supported between instances of" in t and "number-sign" in invalid_kinds:
-        return "no-path:comparison-typeerror:sign-mixin"
-    if t.startswith("unhashable type") and any(k in ("boolean", "enumCls") for k in invalid_kinds):
-        return "no-path:unhashable:boolean-enum"
     if t.startswith("unhashable type") and mode == "deser" and \
             any(k in ("setAny", "setOf", "mapAny", "mapOf") for k in supplied_kinds):
         return "no-path:unhashable:deser-set"
@@ -501,8 +511,9 @@ def classify_no_path(text, raised, mode, ff, invalid_kinds, supplied_kinds, inne
 
 
 def classify_lost(text, path):
-    if path is not None and re.fullmatch(r"[a-zA-Z0-9_.]+", path) is None:
-        return "field-lost:non-ascii-name"
+    if path is not None and re.fullmatch(r"[\w.]+", path) is None:
+        # a name with a character that is neither str.isalnum() nor `_` (e.g. a combining mark)
+        return "field-lost:non-word-name"
     if "\n" in text:
         return "field-lost:newline"
     return "field-lost:other"
@@ -624,7 +635,7 @@ def tags(case, impl, model):
         out.append("impl:skipped")
     if model and "out" in model:
         for s in model["out"].get("sites", []):
-            out.append("site-shape:" + ("anon" if s["anon"] else s["shape"]))
+            out.append("site-shape:" + s["shape"])
     return out
 
 
